@@ -122,6 +122,23 @@ theorem compareF_mono (h : r.Le r') (P : Program) (op : CmpOp) (a b : Val) :
   mono
 macro_rules | `(tactic| mono_lemma) => `(tactic| apply compareF_mono)
 
+theorem insertSortedF_mono (h : r.Le r') (P : Program) (x : Val) (l : List Val) :
+    RLe (insertSortedF r P x l) (insertSortedF r' P x l) := by
+  induction l with
+  | nil => exact RLe.refl _
+  | cons y ys ih =>
+    simp only [insertSortedF]
+    mono using ih
+macro_rules | `(tactic| mono_lemma) => `(tactic| apply insertSortedF_mono)
+
+theorem sortF_mono (h : r.Le r') (P : Program) (l : List Val) : RLe (sortF r P l) (sortF r' P l) := by
+  induction l with
+  | nil => exact RLe.refl _
+  | cons y ys ih =>
+    simp only [sortF]
+    mono using ih
+macro_rules | `(tactic| mono_lemma) => `(tactic| apply sortF_mono)
+
 theorem optIntF_mono (h : r.Le r') (env : Env) (oe : Option Expr) : RLe (optIntF r env oe) (optIntF r' env oe) := by
   unfold optIntF
   mono
